@@ -59,15 +59,17 @@ LEVEL = 'proof'
 TECHNIQUE = ('Lean 4 proof over a byte-level model of header encoding, finalize, error/redirect page rendering and '
              'access-log escaping (induction over all strings; delete table regenerated from the live module and '
              'discharged by decide); model tied to the code by a differential comparison of emitted bytes')
-LEVEL_TEXT = ('Proved in Lean for ALL Unicode strings: every byte of an encoded header item, of the status line and of '
-              'every cookie line (repaired assembly) is >= 32 and != 127, one header tuple per morsel; non-Latin-1 text '
-              'becomes one RFC 2047 word whose own-base64 + core-UTF-8 decoding is the original; in the rendered error '
-              'and redirect pages every <, > and attribute delimiter comes from a template literal and '
-              'unescape(escape s) = s; every access-log line is printable ASCII with every double quote preceded by a '
-              'backslash. Proved false with witnesses: status/cookie cleanliness of the pre-fix assembly (F12) and the '
-              '"odd number of backslashes before a quote" reading of the log clause (F13), each with its partial '
-              'theorem. Correspondence only: str.title(), valid_status, http.cookies, email.header on the request '
-              'side, custom error pages.')
+LEVEL_TEXT = ('Proved in Lean for ALL Unicode strings (no bound): every byte of an encoded header item (str or bytes), of '
+              'every HeaderMap.output() tuple, of the status line and of every cookie tuple of the repaired '
+              'Response.finalize is >= 32 and != 127, with exactly one tuple per header item and per morsel; '
+              'non-Latin-1 text becomes one RFC 2047 word, untouched by the delete step, whose own-base64 + core-UTF-8 '
+              'decoding is the original; in the rendered error page (any template), the failed-custom-page message and '
+              'the redirect page every <, > and attribute delimiter comes from a literal and unescape(escape s) = s; '
+              'every access-log atom and line is printable ASCII with every atom-born double quote preceded by an '
+              'atom-born backslash. Proved false with witnesses: cleanliness of the pre-fix finalize assembly (F12) and '
+              'the "odd number of backslashes before a quote" reading of the log clause (F13), each with its partial '
+              'theorem. Correspondence only: str.title(), valid_status, http.cookies, email.header on the request side, '
+              'working custom error pages.')
 LEVEL_NOTE = ('Trusted: Lean kernel, the hand model as validated by the differential run (emitted bytes of status '
               'line, header tuples, page bodies, log lines), the harness, CPython semantics of bytes.translate, '
               'repr(bytes), str.replace, %-formatting and str.format.')
@@ -142,6 +144,9 @@ def gen_payload(rng, maxfrag=6):
             parts.append(rand_char(rng))
         else:
             parts.append(rng.choice(WORDS))
+    if rng.random() < 0.05:
+        # long values: several base64 quanta, error pages beyond the IE padding sizes
+        parts = parts * rng.choice([3, 8, 20]) + [rng.choice(WORDS) * rng.choice([5, 40])]
     return ''.join(parts)
 
 
